@@ -151,7 +151,7 @@ NewIter(data, start0, end0, asc, D) ==
 \* Valid(): "yes", "no" or "panic" (index out of range)
 IterValid(it, D) ==
     IF it.e < it.s \/ it.cur > it.e THEN "no"
-    ELSE IF "ReverseIndexUnderflow" \notin D /\ (it.cur < 0 \/ it.cur > Len(it.keys) - 1) THEN "no"
+    ELSE IF "ReverseIndexUnderflow" \notin D /\ it.cur < it.s THEN "no"      \* (the repaired Valid)
     ELSE IF (it.end # 0 \/ it.start # 0) /\ (it.cur < 0 \/ it.cur > Len(it.keys) - 1) THEN "panic"
     ELSE IF it.cur < 0 \/ it.cur > Len(it.keys) - 1 THEN "no"
     ELSE IF (it.end # 0 /\ At(it.keys, it.cur) >= it.end) \/ (it.start # 0 /\ At(it.keys, it.cur) < it.start) THEN "no"
